@@ -67,6 +67,10 @@ def inventory_rule(rep, prog, cfg):
         if s.kind == "call:core::option::Option::unwrap" and panics.unwrap_guarded_by_test(s.body, s.bb):
             rep.ok("C09.inventory", inst, detail={"where": s.where, "discharged": "unwrap dominated by is_some edge"})
             continue
+        sl = panics.suffix_length_sub(prog, s)
+        if sl is not None:
+            rep.ok("C09.inventory", inst, detail={"where": s.where, "discharged": sl})
+            continue
         cv = panics.constant_arithmetic(prog, s)
         if cv is not None:
             rep.ok("C09.inventory", inst, detail={"where": s.where, "discharged": "arithmetic on compile-time constants, result %d fits" % cv})
